@@ -26,6 +26,7 @@ type C01Case struct {
 	V     BS        `json:"v"`
 	N     int       `json:"n"` // occurrences (flags)
 	Kinds []string  `json:"kinds,omitempty"`
+	Idx   []int     `json:"idx"` // argv indices of the focus option tokens
 }
 
 var focusPool = []string{"focus", "fo", "target", "tgt", "w", "W", "ü", "üb", "zeta", "Z", "wert"}
@@ -166,7 +167,8 @@ func genC01(t *rapid.T) C01Case {
 		c.Form = "flag"
 		c.N = rapid.IntRange(0, 5).Draw(t, "fn")
 		for i := 0; i < c.N; i++ {
-			a.Push("focus", dash(spellKey(t, lv, fo)))
+			c.Idx = append(c.Idx, len(a.Argv))
+			a.Push("focus", dash(spellKey(t, a.Cur(), fo)))
 			if rapid.Bool().Draw(t, "between") {
 				a.Step()
 				if a.Cur() != lv {
@@ -181,6 +183,7 @@ func genC01(t *rapid.T) C01Case {
 			forms = append(forms, "optional-novalue", "optional-novalue")
 		}
 		key := spellKey(t, lv, fo)
+		c.Idx = append(c.Idx, len(a.Argv))
 		if spec.Mode == ModeSingleDash && len([]rune(key)) == 1 {
 			forms = append(forms, "sd-attached")
 		}
@@ -303,6 +306,26 @@ func checkC01(c C01Case, st *evid.Stats) error {
 		st.Exclude("unspecified: " + m.Unspecified)
 		return nil
 	}
+	level := c.Spec.Root.Name
+	lv0 := c.Spec.Levels()
+	for _, ix := range c.Idx {
+		if ix >= len(m.LevelAt) || m.LevelAt[ix] == "" {
+			if !m.Fail {
+				st.Exclude("focus token not reached by the model")
+				return nil
+			}
+			continue
+		}
+		level = m.LevelAt[ix]
+		if l := lv0.Find(level); l == nil || l.Visible[c.Name] == nil || l.Visible[c.Name].Spec.Name != c.Name {
+			st.Exclude("focus option not visible where the generator put it")
+			return nil
+		}
+	}
+	if hits := m.Hits[OKey(c.Spec.Root.Name, c.Name)]; !m.Fail && !eqInts(hits, c.Idx) {
+		st.Exclude("surrounding tokens address the focus option")
+		return nil
+	}
 	if m.Fail && !wantFail {
 		st.Exclude("surroundings fail in the model: " + strings.Join(m.Causes, "+"))
 		return nil
@@ -330,7 +353,7 @@ func checkC01(c C01Case, st *evid.Stats) error {
 	if wantFail {
 		st.Class("expect:error")
 		if !out.ParseFailed {
-			got := out.Opts[OKey(c.Level, c.Name)]
+			got := out.Opts[OKey(level, c.Name)]
 			return failf("value text %q is not a valid %s yet Parse succeeded; option reads %s", v, fo.Kind, got.Val)
 		}
 		if !out.RemainingNil {
@@ -342,7 +365,7 @@ func checkC01(c C01Case, st *evid.Stats) error {
 	if out.ParseFailed {
 		return failf("Parse failed (%s) for %s form=%s v=%q", out.ParseErr, fo.Kind, c.Form, v)
 	}
-	for _, path := range []string{c.Level, c.Spec.Root.Name} {
+	for _, path := range []string{level, c.Spec.Root.Name} {
 		got, ok := out.Opts[OKey(path, c.Name)]
 		if !ok {
 			return failf("harness: no observation for %s at %s", c.Name, path)
